@@ -563,7 +563,10 @@ func oneProof(c *vf.Ctx, base *chain.World, version, era string, F uint64, salt 
 			if p != nil {
 				pc.What = what
 				fail("corrupt-panic", fmt.Sprintf("%s: %v", what, p))
-			} else if acc && !quirk {
+			} else if acc && !(era != "era3" && F == 0) {
+				// (the middle-era quirk - the whole last leaf of a file that is a multiple of 64 bytes is verified as an
+				// EMPTY leaf, so the honest proof of real data is rejected - does not make any other proof acceptable either;
+				// only the empty file before the storage-proof fork is left unasserted)
 				pc.What = what
 				fail("corrupt-accepted|"+version+"-"+era+"|"+what, "corrupted storage proof ("+what+") ACCEPTED")
 			} else if !acc {
@@ -585,6 +588,9 @@ func oneProof(c *vf.Ctx, base *chain.World, version, era string, F uint64, salt 
 			l2 := leaf
 			l2[0] ^= 1
 			corrupt("flipped data bit", mk(l2, proof))
+			if n > 1 {
+				corrupt("junk leaf without any Merkle path", mk([64]byte{0xDE, 0xAD, 0xBE, 0xEF}, nil))
+			}
 		}
 		for k := range proof {
 			p2 := append([]types.Hash256(nil), proof...)
